@@ -190,6 +190,8 @@ pub fn corpus_digest() -> String {
 
 pub fn run(ctx: &Ctx) -> Report {
     crate::env::set_log_mode(crate::env::LOG_OFF);
+    // this property's statement says nothing about the key provider: judge outcomes only
+    crate::e2e::set_judge_provider(false);
     let thorough = ctx.tier.thorough();
     let max_len: u32 = if thorough { 4 } else { 3 };
     let k = (NAMES.len() * VALUES.len()) as u64;
